@@ -35,6 +35,8 @@ impl<T: Value> ErasedVariable for Var<T> {
         // if it's None, then we were simply pushed onto the
         // value_set_during_stabilisation stack twice. So ignore.
         if let Some(v) = v_opt {
+            #[cfg(cormacrelf_incremental_rs_verif)]
+            crate::verif::probe(crate::verif::Probe::DeferredVarWriteApplied);
             self.set_var_while_not_stabilising(v);
         }
     }
